@@ -118,12 +118,14 @@ def name_based_free_var_names(fn):
     from CPython's resolution (known finding activity-free-vars-name-based):
       * declared global in a nested block (CPython: the module's variable whatever the enclosing blocks bind;
         visit_Global also counts the declaration itself as a read)
+      * declared nonlocal in a nested block (visit_Nonlocal adds the name to `bound`, so it is not exported to the
+        blocks in between although CPython passes it through them as a free variable)
       * bound in a nested class body, or a parameter of a function written in a nested class body (CPython: class
         locals are invisible to the functions nested in the class; the analysis subtracts the class's bound set)"""
     out = set()
     for b in nested_blocks(fn):
         for n in ast.walk(b):
-            if isinstance(n, ast.Global):
+            if isinstance(n, (ast.Global, ast.Nonlocal)):
                 out.update(n.names)
         if isinstance(b, ast.ClassDef):
             for s in b.body:
@@ -220,6 +222,21 @@ def oracle_static(src, node, quirks):
     fns = [n for n in ast.walk(node) if isinstance(n, (ast.FunctionDef, ast.Lambda))]
     failures = []
     known = set()
+    # a walrus inside a comprehension hides the name for everything nested in that comprehension (lambdas)
+    w_all = set()
+    for c in ast.walk(node):
+        if isinstance(c, (ast.ListComp, ast.SetComp, ast.DictComp, ast.GeneratorExp)):
+            w_all.update(n.target.id for n in ast.walk(c) if isinstance(n, ast.NamedExpr))
+    enclosing_targets = {}
+
+    def enc(n, tg):
+        if isinstance(n, (ast.FunctionDef, ast.Lambda)):
+            enclosing_targets[id(n)] = set(tg)
+        if isinstance(n, (ast.ListComp, ast.SetComp, ast.DictComp, ast.GeneratorExp)):
+            tg = tg | set(t.id for g in n.generators for t in ast.walk(g.target) if isinstance(t, ast.Name))
+        for c in ast.iter_child_nodes(n):
+            enc(c, tg)
+    enc(node, set())
     for fn in fns:
         m = match_functions([fn], src)
         if m is None:
@@ -253,23 +270,39 @@ def oracle_static(src, node, quirks):
         h_par = simple(asc.params.keys())
         if h_par != set(t.get_parameters()):
             failures.append(('parameters differ from CPython', '%s: analysis %s, CPython %s' % (where, sorted(h_par), sorted(t.get_parameters()))))
-        # free variables: names the function or the blocks nested in it refer to and that resolve outside it
+        # free variables: names the function or the blocks nested in it refer to and that resolve outside it.
+        # Exempt here: comprehension targets / except names of the block, of the blocks nested in it, and the
+        # targets of the comprehensions the function itself is written in.
+        ex_fv = ex | enclosing_targets.get(id(fn), set())
+        for b in nested_blocks(fn):
+            if not isinstance(b, ast.ClassDef):
+                ex_fv |= exempt_names(b)
+        for b in ast.walk(fn):
+            if isinstance(b, ast.comprehension):
+                ex_fv.update(t.id for t in ast.walk(b.target) if isinstance(t, ast.Name))
+            if isinstance(b, ast.ExceptHandler) and b.name:
+                ex_fv.add(b.name)
         declared = declg | decln
-        h_fv = simple(sc.free_vars) - declared - ex
-        s_fv = fv_cpython(t) - declared - ex
-        extra, missing = h_fv - s_fv, s_fv - h_fv
-        if extra or missing:
-            leak = nested_param_names(fn) | set(p for b in nested_blocks(fn) if not isinstance(b, ast.ClassDef) for p in nested_param_names(b))
-            if (extra | missing) <= leak | own_annotation_names(fn):
+        h_fv = simple(sc.free_vars) - declared - ex_fv
+        s_fv = fv_cpython(t) - declared - ex_fv
+        leak = nested_param_names(fn) | own_annotation_names(fn)
+        for b in nested_blocks(fn):
+            if not isinstance(b, ast.ClassDef):
+                leak |= nested_param_names(b) | own_annotation_names(b)
+        name_based = name_based_free_var_names(fn)
+        unexplained = set()
+        for nme in (h_fv - s_fv) | (s_fv - h_fv):
+            if nme in leak:
                 known.add(KF_LEAK)
-                extra = missing = set()
-        if extra or missing:
-            if (extra | missing) <= name_based_free_var_names(fn) | walrus_in_comp_names(fn) | nested_param_names(fn) | own_annotation_names(fn) \
-                    | set(p for b in nested_blocks(fn) for p in nested_param_names(b) | walrus_in_comp_names(b) if not isinstance(b, ast.ClassDef)):
+            elif nme in w_all:
+                known.add(KF_WALRUS)
+            elif nme in name_based:
                 known.add(KF_FREE)
-                extra = missing = set()
-        if extra or missing:
-            failures.append(('free variables differ from CPython', '%s: analysis-only %s, CPython-only %s' % (where, sorted(extra), sorted(missing))))
+            else:
+                unexplained.add(nme)
+        if unexplained:
+            failures.append(('free variables differ from CPython', '%s: analysis-only %s, CPython-only %s' % (
+                where, sorted(unexplained & h_fv), sorted(unexplained & s_fv))))
     return failures, known
 
 
